@@ -1,6 +1,6 @@
 (* A small concrete database image and commit window used by the non-vacuity examples of Props/C01.v:
    page size 512, one partial region of 3 pages (file length 2048); a commit consists of one page. *)
-From RV Require Import Base.Bytes Gen.Consts Storage.Backend Storage.Header Storage.Window Storage.IdealH.
+From RV Require Import Base.Bytes Gen.Consts Storage.Backend Storage.Header Storage.Window Storage.IdealH Storage.Protocol.
 
 Definition ex_ps : N := 512.
 
@@ -57,3 +57,36 @@ Definition ex_hdrStale : bytes := ex_hdr (RECOVERY_REQUIRED + TWO_PHASE_COMMIT) 
 Definition ex_dStale : dsum := mkDsum ex_hdrStale 2048 false [(512, 2)] true None.
 Definition ex_Wstale : list op :=
   [Write 1024 [1; 6]; Write 0 (ex_hdr (RECOVERY_REQUIRED + PRIMARY_BIT) ex_P (ex_slot 1 6))].
+
+(* ---- the protocol model (Storage/Protocol.v) on the same small database ---- *)
+
+Definition px_geom : bytes := le_encode 4 512 ++ le_encode 4 0 ++ le_encode 4 8.
+Definition px_lay (full trail : N) : bytes := le_encode 4 full ++ le_encode 4 trail.
+(* the header of ex_D as a record: slot 0 (txid 5) primary, recovery_required set, last commit one-phase *)
+Definition px_m0 : hdrm := mkHdrm false true false px_geom (px_lay 0 3) ex_P ex_Qold.
+(* an open database whose durable image is ex_D *)
+Definition px_st0 : pst := mkPst ex_d [] px_m0 false true.
+
+(* a history: eviction, 1PC commit, growth, a non-durable commit, 2PC commits (one shrinking the file),
+   a 1PC commit after a 2PC one, clean close with trim, reopen, commit *)
+Definition px_steps : list pstep :=
+  [ PEvict [(1536, [2; 6])];
+    PCommit false (ex_slot 2 6) [(1536, 2)] [] None;
+    PGrow 2560 (px_lay 0 4);
+    PNonDurable (ex_slot 0 7);
+    PCommit true (ex_slot 0 8) [(512, 2)] [(512, [0; 8])] None;
+    PCommit true (ex_slot 1 9) [(1024, 2)] [(1024, [1; 9])] (Some (2048, px_lay 0 3));
+    PCommit false (ex_slot 2 10) [(1536, 2)] [(1536, [2; 10])] None;
+    PClose (ex_slot 0 11) [(512, 2)] [(512, [0; 11])] (Some (1536, px_lay 0 2));
+    POpen;
+    PCommit false (ex_slot 1 12) [(1024, 2)] [(1024, [1; 12])] None ].
+
+(* a shorter one whose semantic side conditions are discharged against ex_expect: 1PC, then 2PC *)
+Definition px_steps2 : list pstep :=
+  [ PEvict [(1536, [2; 6])];
+    PCommit false (ex_slot 2 6) [(1536, 2)] [] None;
+    PCommit true (ex_slot 1 7) [(1024, 2)] [(1024, [1; 7])] None ].
+
+(* a state whose durable commit lies at the end of the file: committing a smaller tree and shrinking *)
+Definition px_mS : hdrm := mkHdrm false true false px_geom (px_lay 0 3) (ex_slot 2 5) ex_Qold.
+Definition px_stS : pst := mkPst (mkDsum (enc_hdr px_mS) 2048 false [(1536, 2)] true None) [] px_mS false true.
